@@ -11,6 +11,15 @@ namespace utils = nmtools::utils;
 
 // ndarray kinds: 0 dynamic (list buffer, list shape)  1 hybrid shape (static_vector<size_t,4>)  2 a lazy view (double transpose) of kind 0
 // index-array kinds: 0 list<int> 1 array<int,N> 2 run-time tuple 3 static_vector<int,6>
+// value grids per element type for the mixed-type isclose cases (all values exactly representable in their type)
+static const std::vector<double>& mix_grid(long t) {
+    static const std::vector<double> gi = {-1, 0, 1, 2, 255}, gf = {-1, -0.5, 0, 0.5, 0.999, 1, 1.5, 2, 254.75, 255}, gu = {0, 1, 2, 255};
+    return (t == 0) ? gi : (t == 1 || t == 2) ? gf : gu;
+}
+static long mix_grid_size(long t) { return (long)mix_grid(t).size(); }
+static double mix_value(long t, long i) { double v = mix_grid(t)[(size_t)i]; return t == 2 ? (double)(float)v : v; }
+static const double MIX_EPS[3] = {0.25, 0.75, 1.25};
+
 void nmc_enumerate(const nmc::Tier& t, const nmc::Sink& emit) {
     std::vector<L> S; nmc::each_shape_range(1, 3, 3, [&](const L& s) { S.push_back(s); });
     for (auto& a : S) for (auto& b : S) {
@@ -35,6 +44,11 @@ void nmc_enumerate(const nmc::Tier& t, const nmc::Sink& emit) {
     for (int sa = 0; sa < 3; sa++) for (int sb = 0; sb < 3; sb++) emit(Case("maybe", {{sa}, {sb}}));       // 0 empty, 1 value v, 2 value w
     for (int sa = 0; sa < 4; sa++) for (int sb = 0; sb < 4; sb++) emit(Case("either", {{sa}, {sb}}));     // 0 left v, 1 left w, 2 right x, 3 right y
     for (int pa = 0; pa < 4; pa++) for (int pb = 0; pb < 4; pb++) emit(Case("tuple", {{pa}, {pb}}));
+    // operands of DIFFERENT element types (int, double, float, uint8, uint32): every value pair of the two types' grids, three tolerances, as scalars and as
+    // 1-d arrays (the pair sits in the middle of three elements), in both operand orders (symmetry)
+    for (long ta = 0; ta < 5; ta++) for (long tb = 0; tb < 5; tb++) for (long form = 0; form < 2; form++)
+        for (long i = 0; i < mix_grid_size(ta); i++) for (long j = 0; j < mix_grid_size(tb); j++) for (long e = 0; e < 3; e++)
+            emit(Case("closemix", {{ta, tb}, {form}, {i, j}, {e}}));
     // ndarray operand vs maybe<ndarray>
     for (auto& a : S) for (auto& b : S) { if (a.size() > 2 || b.size() > 2) continue; emit(Case("nd_maybe", {a, b, {0}})); emit(Case("nd_maybe", {a, b, {1}})); }
 }
@@ -134,6 +148,21 @@ Outcome nmc_execute(const Case& c) {
         bool want = c.a[2][0] && ra.shape == rb.shape;
         int got = eq(a, mb), rev = eq(mb, a);
         return decide("isequal(ndarray,maybe<ndarray>)", got, rev, want, true, nmc::hash_vec(c.a[0]) ^ nmc::mix(nmc::hash_vec(c.a[1])) ^ (uint64_t)c.a[2][0]);
+    }
+    if (c.op == "closemix") {
+        long ta = c.a[0][0], tb = c.a[0][1], form = c.a[1][0]; double va = mix_value(ta, c.a[2][0]), vb = mix_value(tb, c.a[2][1]), eps = MIX_EPS[c.a[3][0]];
+        bool want = std::fabs(va - vb) < eps;
+        auto with_t = [&](long t, auto&& f) { switch (t) { case 0: return f(int{}); case 1: return f(double{}); case 2: return f(float{}); case 3: return f(uint8_t{}); default: return f(uint32_t{}); } };
+        int got = -1, rev = -1;
+        with_t(ta, [&](auto xa) { return with_t(tb, [&](auto xb) {
+            using TA = decltype(xa); using TB = decltype(xb);
+            if (form == 0) { TA a = (TA)va; TB b = (TB)vb; got = utils::isclose(a, b, eps) ? 1 : 0; rev = utils::isclose(b, a, eps) ? 1 : 0; }
+            else { auto a = make_arr<TA>(L{3}); auto b = make_arr<TB>(L{3}); a.data_[0] = 1; b.data_[0] = 1; a.data_[2] = 2; b.data_[2] = 2; a.data_[1] = (TA)va; b.data_[1] = (TB)vb;
+                   got = utils::isclose(a, b, eps) ? 1 : 0; rev = utils::isclose(b, a, eps) ? 1 : 0; }
+            return 0; }); });
+        static const char* TN[5] = {"int", "double", "float", "uint8", "uint32"};
+        char what[160]; snprintf(what, sizeof what, "isclose(%s %g, %s %g, eps %g)%s", TN[ta], va, TN[tb], vb, eps, form ? " [1-d arrays]" : "");
+        return decide(what, got, rev, want, ta != tb, (uint64_t)(ta * 5 + tb) * 1000003ULL + (uint64_t)(c.a[2][0] * 64 + c.a[2][1] * 4 + c.a[3][0]) + (uint64_t)form * 977);
     }
     nmc::die("unknown op");
 }
